@@ -76,6 +76,14 @@ Theorem C13_short_nested_refuted :
 Proof. eexists. exact short_nested_witness. Qed.
 Print Assumptions C13_short_nested_refuted.
 
+(* The renderer returns for EVERY document, form and width (after the fix: commit efdd257 -- before it a
+   margin above 50 columns, reached by blocks nested about eighteen deep, made `PADDING[..missing]`
+   panic; found while stating this theorem: the model carried the panic as an outcome) *)
+Theorem C13_render_returns :
+  forall docgen full mw d, render_console docgen full mw d <> None.
+Proof. exact render_console_returns. Qed.
+Print Assumptions C13_render_returns.
+
 (* The width clause.  FULL STATEMENT (kept visible; decided on the implementation's text by the oracle
    and the differential run): for 40 <= w every output line has at most w + 2 characters unless it is
    a code line or what follows its indentation / term is a single unbreakable word.
